@@ -1544,7 +1544,10 @@ int main(int argc, char** argv)
         else if (a == "--ticks")
             E.mode_ticks = true;
         else if (a == "--scalar")
+        {
             E.mode_scalar = true;
+            scalar_bounds() = true;
+        }
         else if (a == "--special")
             E.mode_special = true;
         else if (a == "--placement")
